@@ -252,6 +252,18 @@ func TestC19(t *testing.T) {
 			}
 		}
 	}
+	// the hand-built edge files through every standard reader type (they are tiny)
+	for _, sd := range seeds.Hostile() {
+		for ki, kind := range src.StdKinds {
+			c := Case{Desc: sd.Name, Data: sd.Data, Std: kind, Prefix: []int{0, 27}[ki%2]}
+			ev.Eval(1)
+			k, w, _ := check(c)
+			if k != "" && !bad[k] {
+				bad[k] = true
+				ev.Violation("auto", k, w, c)
+			}
+		}
+	}
 	ev.Class("seeds", int64(len(all)*3))
 	// large headers: metadata that completes only after 64 KiB / 1 MiB / 2 MiB / 4 MiB (16, 64 MiB in thorough)
 	ths := []int{1 << 16, 1 << 20, 2 << 20, 4 << 20}
